@@ -53,12 +53,15 @@ fn der(shape: &Shape, muts: &[&str]) -> (Vec<u8>, bool) {
         body.extend(tlv(0x02, &[u8::from(has("version_one"))]));
         body.extend(&alg);
         let inner_tag = if has("inner_tag") { 0x03 } else if has("inner_tag_cons") { 0x24 } else if has("inner_tag_class") { 0x84 } else { 0x04 };
-        let inner = tlv(inner_tag, &key);
+        let mut inner = tlv(inner_tag, &key);
+        // the container cut down to 0, 1 or 2 bytes of content, every length consistent
+        if has("key_empty") { inner.truncate(0); } else if has("key_one") { inner.truncate(1); } else if has("key_hdr_only") { inner.truncate(2); }
         body.extend(tlv(if has("key_tag") { 0x03 } else if has("key_tag_cons") { 0x24 } else { 0x04 }, &inner));
     } else {
         body.extend(&alg);
         let mut bits = vec![if has("bit_unused") { 3 } else { 0 }];
         bits.extend(&key);
+        if has("key_empty") { bits.truncate(0); } else if has("key_one") { bits.truncate(1); } else if has("key_hdr_only") { bits.truncate(2); }
         body.extend(tlv(if has("key_tag") { 0x04 } else if has("key_tag_cons") { 0x23 } else { 0x03 }, &bits));
     }
     let mut out = tlv(if has("outer_tag") { 0x31 } else { 0x30 }, &body);
